@@ -1,4 +1,4 @@
-import RsMatterVerif.Lemmas.BtpLink
+import RsMatterVerif.Lemmas.BtpHandshake
 /-!
 # C18 — BTP delivers each message intact, once and in order, or fails cleanly
 
@@ -297,17 +297,125 @@ example : ((runLink (freshLink false false none none)
     (handshakeOps ++ [.send .a [1, 2, 3], .poll .a, .deliver .b, .fetch .b 2048])).b.fetched) =
     [([1, 2, 3], 2048)] := by decide
 
-/-! ## What is not proved -/
+/-! ## Two well-behaved ends never refuse each other (cross-end invariant, from two fresh ends) -/
 
-/-- The full statement of the property on the model: from two fresh ends, under every schedule,
-(1) no operation fails (in particular no `Deliver` is refused), (2) what is fetched at one end is
-a prefix of what was submitted at the other end, (3) an end never has more segments in flight than
-the window. Proved: (2) from every steady state (`in_order_once`), the sender-side form of (3)
-(`emits_only_with_free_slot`), and "never panics" + invariants for every schedule (`link_inv`,
-`link_never_panics`). Not proved: (1), i.e. that sequence numbers, acknowledgements and window
-levels of two well-behaved ends always match (it needs the in-flight accounting
-`level + ack_level + in flight = window` across both queues); the harness checks it on the real
-code (kind `l`: any error between two well-behaved ends is an oracle failure). -/
+theorem phase_fresh (ra rb : Bool) (ga gb : Option Nat) : Phase ra rb ga gb (freshLink ra rb ga gb) := by
+  refine .p0 ⟨rfl, rfl, ?_, ?_, rfl, rfl, rfl, rfl, rfl⟩ rfl rfl rfl rfl rfl
+  all_goals
+    constructor <;> simp [freshLink, freshMon]
+
+/-- **`phase_run`**: after ANY schedule from two fresh ends the link is in one of the handshake
+phases or synchronised (`Phase`), and satisfies the representation invariant (`LInv`). -/
+theorem phase_run (ra rb : Bool) (ga gb : Option Nat) (ops : List Op) (hw : WfSched ops) :
+    LInv (runLink (freshLink ra rb ga gb) ops) ∧ Phase ra rb ga gb (runLink (freshLink ra rb ga gb) ops) := by
+  suffices h : ∀ (ops : List Op) (l : LMon), LInv l → Phase ra rb ga gb l → WfSched ops →
+      LInv (runLink l ops) ∧ Phase ra rb ga gb (runLink l ops) from
+    h ops _ (linv_fresh ra rb ga gb) (phase_fresh ra rb ga gb) hw
+  intro ops
+  induction ops with
+  | nil => intro l hl hp _; exact ⟨hl, hp⟩
+  | cons op ops ih =>
+    intro l hl hp hw
+    have hw' : WfSched ops := fun o h => hw o (List.mem_cons_of_mem _ h)
+    have c := link_step l hl op (hw op List.mem_cons_self)
+    simp only [runLink]
+    rcases phase_step hl hp op with ⟨l', o, h1, h2⟩ | ⟨h1, _⟩
+    · rw [h1] at c ⊢
+      exact ih l' c h2 hw'
+    · rw [h1]
+      exact ih l hl hp hw'
+
+/-- **`never_refused`** (clause 1 of the property between two well-behaved ends): after ANY
+schedule from two fresh ends — every interleaving of `Send | Poll | Deliver | Tick | Fetch` at both
+ends, every GATT MTU / negotiation mode (hence every negotiated segment size and window), across
+sequence-number wrap — the next operation never fails: no `Deliver` is refused (sequence numbers,
+acknowledgements, window levels, flags, lengths and ring-buffer space of the two ends always
+match), no `Poll` or `Fetch` fails. The only error is `Send` refusing an empty or over-long
+message (`InvalidArgument`). -/
+theorem never_refused (ra rb : Bool) (ga gb : Option Nat) (ops : List Op) (hw : WfSched ops) (op : Op) :
+    (∃ l' o, (runLink (freshLink ra rb ga gb) ops).step op = .ok (l', o)) ∨
+    ((runLink (freshLink ra rb ga gb) ops).step op = .error .invalidArgument ∧ ∃ x m, op = .send x m) := by
+  obtain ⟨hl, hp⟩ := phase_run ra rb ga gb ops hw
+  rcases phase_step hl hp op with ⟨l', o, h1, _⟩ | h
+  · exact .inl ⟨l', o, h1⟩
+  · exact .inr h
+
+/-- a `Send` with a message of 1..1232 bytes is never refused either -/
+example : ∃ l' o, (runLink (freshLink false false none none) handshakeOps).step (.send .a [1, 2, 3]) = .ok (l', o) :=
+  ⟨_, _, rfl⟩
+
+/-- **Cross-end form of "never more unacknowledged segments than the peer's window allows"**:
+in every state reachable from two fresh ends in which both ends are established, for each
+direction `x → y`: the segments in flight fit the free slots the peer's receive window really has
+(`level`), and `x`'s count of unacknowledged segments `window − level` = covers the segments in
+flight plus those `y` has received and not yet acknowledged, and never exceeds the window. -/
+theorem window_respected (ra rb : Bool) (ga gb : Option Nat) (ops : List Op) (hw : WfSched ops)
+    (hest : (runLink (freshLink ra rb ga gb) ops).a.e.s.established = true) (x : Side) :
+    let l := runLink (freshLink ra rb ga gb) ops
+    (l.inq x.other).length ≤ (l.get x.other).e.s.recv.level ∧
+    (l.inq x.other).length + (l.get x.other).e.s.recv.ackLevel ≤
+      (l.get x).e.s.windowSize - (l.get x).e.s.send.level ∧
+    (l.get x).e.s.windowSize - (l.get x).e.s.send.level ≤ (l.get x.other).e.s.windowSize := by
+  obtain ⟨_, hp⟩ := phase_run ra rb ga gb ops hw
+  intro l
+  cases hp with
+  | p0 _ sa => rw [sa] at hest; cases hest
+  | p1 _ sa => rw [sa] at hest; cases hest
+  | p2 _ sa => rw [sa] at hest; cases hest
+  | p3 _ h => rw [h.sa] at hest; cases hest
+  | sync h =>
+    have d := (h.dir x).inflight_le
+    rw [(h.ses x).2.1, (h.ses x.other).2.1]
+    exact d
+
+/-- Non-vacuity: after the handshake and three polls with a 60-byte message queued at `b`
+(segment size 20), three segments are in flight towards `a` and `b` counts four unacknowledged
+ones (the handshake response included). -/
+example :
+    let l := runLink (freshLink false false none none)
+      (handshakeOps ++ [.send .b (List.replicate 60 7), .poll .b, .poll .b, .poll .b])
+    l.a.e.s.established = true ∧ (l.inq .a).length = 3 ∧ l.b.e.s.windowSize - l.b.e.s.send.level = 4 := by
+  decide
+
+/-! ## Intact, exactly once, in order — from two fresh ends -/
+
+/-- **`in_order_once_fresh`**: start from two FRESH ends (any GATT MTUs, any negotiation mode: every
+negotiated segment size and window), run ANY schedule — the handshake is part of the schedule,
+messages may be submitted before it completes, the responder may send data behind its response.
+Then at either end the `k`-th fetched message is byte-identical to the `k`-th message submitted at
+the other end (cut to the caller's buffer). Together with `never_refused` (nothing is ever refused,
+so the semantics "a refused Deliver leaves the link unchanged" is never exercised) this is
+"exactly once, unmodified, in order". -/
+theorem in_order_once_fresh (ra rb : Bool) (ga gb : Option Nat) (ops : List Op) (hw : WfSched ops)
+    (y : Side) (k : Nat) (b : List Nat) (c : Nat)
+    (hk : ((runLink (freshLink ra rb ga gb) ops).get y).fetched[k]? = some (b, c)) :
+    ∃ full, ((runLink (freshLink ra rb ga gb) ops).get y.other).submitted[k]? = some full ∧ b = full.take c := by
+  obtain ⟨hl, hp⟩ := phase_run ra rb ga gb ops hw
+  have hnil : ∀ pre : Pre ga gb (runLink (freshLink ra rb ga gb) ops), False := by
+    intro pre
+    cases y
+    · simp only [LMon.get, pre.fA] at hk; cases hk
+    · simp only [LMon.get, pre.fB] at hk; cases hk
+  cases hp with
+  | p0 pre => exact (hnil pre).elim
+  | p1 pre => exact (hnil pre).elim
+  | p2 pre => exact (hnil pre).elim
+  | p3 _ h => exact (hnil h.pre).elim
+  | sync h => exact fetched_is_submitted hl h.st y k b c hk
+
+/-- Non-vacuity: from two fresh ends, `a` submits before the handshake, the handshake runs, the
+segment travels, `b` fetches exactly what was submitted. -/
+example : ((runLink (freshLink false true (some 100) (some 64))
+    ([.send .a [9, 8, 7]] ++ handshakeOps ++ [.poll .a, .deliver .b, .fetch .b 2048])).b.fetched) =
+    [([9, 8, 7], 2048)] := by decide
+
+/-! ## The full statement -/
+
+/-- The full safety statement of the property on the model: from two fresh ends, under every
+schedule, (1) no operation fails — in particular no `Deliver` is refused — except `Send` refusing
+an empty / over-long message, (2) what is fetched at one end is a prefix of what was submitted at
+the other end, (3) once both ends are established an end never has more segments in flight than
+the peer's receive window has free slots, and never more unacknowledged segments than the window. -/
 def C18_full : Prop :=
   ∀ (ra rb : Bool) (ga gb : Option Nat) (ops : List Op), WfSched ops →
     (∀ op, WfOp op → ∀ e, (runLink (freshLink ra rb ga gb) ops).step op ≠ .error e ∨
@@ -315,6 +423,26 @@ def C18_full : Prop :=
     (∀ (y : Side) (k : Nat) (b : List Nat) (c : Nat),
         ((runLink (freshLink ra rb ga gb) ops).get y).fetched[k]? = some (b, c) →
         ∃ full, ((runLink (freshLink ra rb ga gb) ops).get y.other).submitted[k]? = some full ∧
-          b = full.take c)
+          b = full.take c) ∧
+    ((runLink (freshLink ra rb ga gb) ops).a.e.s.established = true → ∀ x : Side,
+        ((runLink (freshLink ra rb ga gb) ops).inq x.other).length ≤
+          ((runLink (freshLink ra rb ga gb) ops).get x.other).e.s.recv.level ∧
+        ((runLink (freshLink ra rb ga gb) ops).get x).e.s.windowSize -
+          ((runLink (freshLink ra rb ga gb) ops).get x).e.s.send.level ≤
+          ((runLink (freshLink ra rb ga gb) ops).get x.other).e.s.windowSize)
+
+/-- **`C18_full` holds.** -/
+theorem C18_full_holds : C18_full := by
+  intro ra rb ga gb ops hw
+  refine ⟨?_, in_order_once_fresh ra rb ga gb ops hw, ?_⟩
+  · intro op _ e
+    rcases never_refused ra rb ga gb ops hw op with ⟨l', o, h⟩ | ⟨h, _⟩
+    · left; rw [h]; intro h2; cases h2
+    · by_cases he : e = .invalidArgument
+      · right; exact he
+      · left; rw [h]; intro h2; exact he (Except.error.inj h2).symm
+  · intro hest x
+    have := window_respected ra rb ga gb ops hw hest x
+    exact ⟨this.1, this.2.2⟩
 
 end C18
